@@ -7,6 +7,7 @@ import (
 	"errors"
 	"fmt"
 	"runtime/debug"
+	"strings"
 	"time"
 
 	"github.com/nspcc-dev/dbft"
@@ -131,6 +132,7 @@ type Call struct {
 	PreBlockSent bool
 	PreResets    int
 	PreTimer     VTimer
+	PreSub       bool // library-side transaction subscription active before the call
 	// counters at call start (index into node log)
 	LogStart int
 	fp       string
@@ -147,6 +149,8 @@ type Node struct {
 	Crashed   bool
 	Faulty    bool // was restarted with amnesia in this run (counts as faulty)
 	Restarts  int
+	Silent    bool // down from the start, never comes back
+	Synced    int  // blocks adopted through ledger synchronisation
 	Offset    time.Duration // per-node clock offset
 
 	// application: ledger
@@ -508,6 +512,7 @@ func (n *Node) do(c Call, f func()) {
 	c.LogStart = len(n.Log)
 	if n.D.Validators != nil {
 		c.PreHeight, c.PreView, c.PreBlockSent = n.D.BlockIndex, n.D.ViewNumber, n.D.BlockSent()
+		c.PreSub = n.D.VerifFlags().TxSubscriptionOn
 	}
 	c.PreResets = n.Timer.Resets
 	c.PreTimer = *n.Timer
@@ -532,6 +537,9 @@ func (n *Node) do(c Call, f func()) {
 	func() {
 		defer func() {
 			if r := recover(); r != nil {
+				if strings.HasPrefix(fmt.Sprintf("%T", r), "rapid.") {
+					panic(r) // rapid's own control flow (invalid data while shrinking), not a library panic
+				}
 				n.ev(EvPanic, nil, fmt.Sprint(r))
 				n.W.Fail("C11", fmt.Sprintf("node %d: panic in %s: %v\n%s", n.ID, c.Kind, r, trimStack(debug.Stack())), "panic:"+c.Kind.String())
 				n.Crashed = true // state is unknown; stop driving it
